@@ -35,7 +35,7 @@ class Budget(object):
 class ValueGen(object):
 
     def __init__(self, env, rnd, tier='quick', max_len=None, big_len_p=0.03,
-                 special_reals=True, out_of_root_p=0.15, junk_bits_p=0.2,
+                 special_reals=True, out_of_root_p=0.15, junk_bits_p=0.0,
                  nan=False):
         self.env = env
         self.rnd = rnd
@@ -160,7 +160,12 @@ class ValueGen(object):
             data = bytearray(rnd.getrandbits(8) for _ in range((n + 7) // 8))
             if n % 8 and rnd.random() >= self.junk_bits_p:
                 data[-1] &= (0xff << (8 - n % 8)) & 0xff
-            if b.named_bits and n > 0 and rnd.random() < 0.5:
+            if b.named_bits and n > 0 and r.size is not None and (r.size.lo or 0) > 0:
+                # X.680 22.7: with a named bit list trailing 0 bits may be added or removed to meet
+                # a SIZE constraint, so which lengths "satisfy" SIZE (n..) is debatable; only values
+                # whose last bit is 1 are used there (DESIGN C01/C11 note)
+                data[(n - 1) // 8] |= 0x80 >> ((n - 1) % 8)
+            elif b.named_bits and n > 0 and rnd.random() < 0.5:
                 # make trailing zero bits likely
                 z = rnd.randint(1, min(n, 10))
                 for i in range(n - z, n):
